@@ -309,7 +309,7 @@ func buildRig(agent string, o rigOpts) *rig {
 		}
 	case "tlb":
 		low := r.xlat("Low", pick(o.slow, 3, 14))
-		sp := tlb.DefaultSpec() // Latency 4: W2 (1-stage pipeline with delay 1 never emits) is not fixed in /repo
+		sp := tlb.DefaultSpec() // Latency 4 (>= 2): independent of W2 (1-stage pipeline with delay 1)
 		sp.NumWays = 2
 		sp.MSHRSize = 2
 		sp.NumReqPerCycle = 1
